@@ -107,6 +107,43 @@ def run(ck, m):
     link_record_rule(ck, m)
     from props import C14
     C14.single_primary(ck, m, rule='C07.h')
+    join_requests_reach_every_replica(ck, m)
+
+
+def join_requests_reach_every_replica(ck, m):
+    """C07.k — see RULES"""
+    P = m.prog
+    ck.rule('C07.k', 'a starting node announces itself to EVERY configured replica: the function that sends the join request (connects, '
+                     'authenticates, writes `join <address>`) is called from a loop over the configured replica list whose only way out is the '
+                     'end of the list — only the primary acts on a join, a secondary ignores it; a node that stops after the first replica that '
+                     'took the connection is admitted by nobody when that replica is a secondary, takes the single-member shortcut and makes '
+                     'itself a second primary')
+    askers = [b for b in P.user_bodies() if b.kind == 'fn' and not b.id.startswith(('nundb::client::', 'nundb::command_line::'))
+              and any(wire.first_word(f) == 'join' for _, f in templates_in(m, b))
+              and any(callee_decl(t).startswith('std::net::TcpStream::connect') for _, t in b.calls())]
+    n = 0
+    for ab in askers:
+        for cb, cbi in P.callers().get(ab.id, []):
+            loops = [(h, body) for h, body in natural_loops(cb) if cbi in body]
+            if not loops:
+                continue
+            n += 1
+            bad = []
+            for h, body in loops:
+                nexts = [x for x in body if cb.term(x)['k'] == 'call' and callee_decl(cb.term(x)) == 'std::iter::Iterator::next']
+                none_edges = set()
+                for nb_ in nexts:
+                    for (s3, tm3, els3, adt3) in core.enum_switches(cb, nb_):
+                        none_edges.add((s3, tm3.get('0', els3)))
+                for x in sorted(body):
+                    for y in cb.succ(x):
+                        if y not in body and not cb.blocks[y].get('cleanup') and (x, y) not in none_edges and cb.term(y)['k'] != 'unreachable':
+                            bad.append(cb.loc(x))
+            ck.ob('C07.k', short(cb.id), 'join-request-to-every-replica', not bad,
+                  'the loop that asks the replicas to join ends only with the list' if not bad else
+                  'the loop that asks the replicas to join can be left before the list is through (%s): the replicas after that point — the '
+                  'primary among them whenever it does not sort first — never hear of the node' % sorted(set(bad)), cb.loc(cbi))
+    ck.floor('C07.k', n, 1, 'loops that send the join request')
 
 
 def _run(ck, m):
